@@ -149,6 +149,13 @@ def generate(rng, tier):
                         'cid': holder['cid'], 'host': holder['host'],
                         'deps': ['put:' + holder['cid'], 'put:' + surplus[0]['cid']]})
 
+    if surplus:
+        # ... and a second surplus instance is registered by a runtime that talks to ZooKeeper itself (EndpointPresence
+        # under its own session, as the docker runtime does) while the first one holds the placeholder
+        other_host = HOSTS[1 - HOSTS.index(surplus[0]['host'])] if rng.random() < 0.7 else surplus[0]['host']
+        actions.append({'id': 'auxr:reg_identity:%s:%s' % (other_host, surplus[0]['cid']), 'kind': 'reg_identity',
+                        'cid': surplus[0]['cid'], 'host': other_host, 'deps': ['put:' + surplus[0]['cid']]})
+
     return {
         'shape': shape,
         'hosts': [c['host'] for c in containers],
